@@ -62,6 +62,21 @@ def spox_type(tj: Any):
     return SOptional(spox_type(tj["opt"]))
 
 
+def public_type_json(t) -> Any:
+    """A spox type as JSON, through the public attributes only (dtype, shape, elem_type)."""
+    from spox import Optional as SOptional
+    from spox import Sequence, Tensor
+
+    if isinstance(t, Tensor):
+        e = onnx.helper.np_dtype_to_tensor_dtype(np.dtype(t.dtype))
+        return {"t": [e, None if t.shape is None else [d if isinstance(d, (int, str)) else None for d in t.shape]]}
+    if isinstance(t, Sequence):
+        return {"seq": public_type_json(t.elem_type)}
+    if isinstance(t, SOptional):
+        return {"opt": public_type_json(t.elem_type)}
+    return None
+
+
 def concrete(tj: Any, rng: Optional[random.Random] = None, how: str = "same") -> Any:
     """An argument type for a declared input type: symbolic dims replaced by what the data has."""
     e, dims = tj["t"]
@@ -108,7 +123,10 @@ def gen_call(rng: random.Random, m: onnx.ModelProto) -> dict:
         kws = [rng.choice(ins[:npos])] + [k for k in ins[npos:] if rng.random() < 0.8]
     elif style < 0.81:  # unknown keyword
         npos = rng.randrange(0, n + 1)
-        kws = list(ins[npos:]) + [rng.choice(["nope", "x_9", ins[0] + "_", "Inline_0__x__"])]
+        non_input_inits = [i.name for i in m.graph.initializer if i.name not in ins] + \
+            [s_.values.name for s_ in m.graph.sparse_initializer if s_.values.name not in ins]
+        extra = ["nope", "x_9", ins[0] + "_", "Inline_0__x__"] + 3 * non_input_inits + [o.name for o in m.graph.output if o.name not in ins]
+        kws = list(ins[npos:]) + [rng.choice(extra)]
     elif style < 0.92:  # something missing
         npos = rng.randrange(0, n + 1)
         kws = [k for k in ins[npos:] if rng.random() < 0.5]
@@ -187,9 +205,13 @@ def gen_ctx(rng: random.Random, m: onnx.ModelProto) -> dict:
 def real_stages(m: onnx.ModelProto, call: dict, ctx: dict, lits: L.Lits) -> dict:
     """Run inline(m), the call and `_Inline.to_onnx` on the real code; canonicalise each stage."""
     from spox import argument, inline
-    from spox._scope import Scope
 
     out: dict[str, Any] = {}
+    try:
+        from spox._scope import Scope
+    except Exception as e:  # noqa: BLE001
+        Scope = None  # noqa: N806
+        out["unobservable"] = f"spox._scope.Scope: {type(e).__name__}: {e}"
     try:
         f = inline(m)
     except Exception as e:  # noqa: BLE001
@@ -218,35 +240,38 @@ def real_stages(m: onnx.ModelProto, call: dict, ctx: dict, lits: L.Lits) -> dict
     except Exception as e:  # noqa: BLE001
         out["call"] = type(e).__name__
         return out
-    vars_ = list(res.values())
-    if not vars_:
-        out["call"] = "no-outputs"
+    try:
+        vars_ = list(res.values())
+        node = vars_[0]._op
+        slots = []
+        in_names = [i.name for i in m.graph.input]
+        inits = {i.name: onnx.numpy_helper.to_array(i) for i in m.graph.initializer}
+        for idx, v in enumerate(node.inputs.inputs):
+            labels = [["pos", j] for j, p in enumerate(pos) if p is v] + [["kw", k] for k, p in kw.items() if p is v]
+            if not labels:
+                val = getattr(v, "_value", None)
+                arr = getattr(val, "value", None)
+                own = in_names[idx] if idx < len(in_names) else None
+                match = [n for n, a in inits.items() if isinstance(arr, np.ndarray) and a.shape == arr.shape and np.array_equal(a, arr)]
+                if own in match:
+                    labels = [["dflt", own]]
+                elif match:
+                    labels = [["dflt", match[0]]]
+                else:
+                    labels = [["dflt", "?"]]
+            slots.append(labels)
+        out["call"] = slots
+        out["resNames"] = list(res.keys())
+        out["resTypes"] = [public_type_json(v.type) if v.type is not None else "untyped" for v in vars_]
+    except Exception as e:  # noqa: BLE001 - the internals the harness reads are gone: not a verdict
+        out["unobservable"] = f"slots of the Inline node: {type(e).__name__}: {e}"
         return out
-    node = vars_[0]._op
-    slots = []
-    in_names = [i.name for i in m.graph.input]
-    inits = {i.name: onnx.numpy_helper.to_array(i) for i in m.graph.initializer}
-    for idx, v in enumerate(node.inputs.inputs):
-        labels = [["pos", j] for j, p in enumerate(pos) if p is v] + [["kw", k] for k, p in kw.items() if p is v]
-        if not labels:
-            val = getattr(v, "_value", None)
-            arr = getattr(val, "value", None)
-            own = in_names[idx] if idx < len(in_names) else None
-            match = [n for n, a in inits.items() if isinstance(arr, np.ndarray) and a.shape == arr.shape and np.array_equal(a, arr)]
-            if own in match:
-                labels = [["dflt", own]]
-            elif match:
-                labels = [["dflt", match[0]]]
-            else:
-                labels = [["dflt", "?"]]
-        slots.append(labels)
-    out["call"] = slots
-    out["resNames"] = list(res.keys())
-    out["resTypes"] = [L.type_json(v.type._to_onnx()) if v.type is not None else "untyped" for v in vars_]
 
     # _Inline.to_onnx in a prepared scope
-    scope = Scope()
+    if Scope is None:
+        return out
     try:
+        scope = Scope()
         scope.node[node] = ctx["nodeName"]
         for v, n in zip(node.inputs.inputs, ctx["argNames"]):
             scope.var[v] = n
@@ -260,20 +285,27 @@ def real_stages(m: onnx.ModelProto, call: dict, ctx: dict, lits: L.Lits) -> dict
             scope.var.base_name_counters[b] = c
         for b, c in ctx["node"]["counters"]:
             scope.node.base_name_counters[b] = c
-        nodes = node.to_onnx(scope)
+        to_onnx = node.to_onnx
     except Exception as e:  # noqa: BLE001
+        out["unobservable"] = f"preparing a Scope for _Inline.to_onnx: {type(e).__name__}: {e}"
+        return out
+    try:
+        nodes = to_onnx(scope)
+    except Exception as e:  # noqa: BLE001 - the outcome of to_onnx itself
         out["emit"] = type(e).__name__
         return out
+    try:
+        def space(sp):
+            names = set(sp.reserved) | {k for k in sp.of_name}
+            return {"used": sorted(names), "counters": sorted([b, c] for b, c in sp.base_name_counters.items())}
 
-    def space(sp):
-        names = set(sp.reserved) | {k for k in sp.of_name}
-        return {"used": sorted(names), "counters": sorted([b, c] for b, c in sp.base_name_counters.items())}
-
-    out["emit"] = {
-        "nodes": [L.abstract_node(n, lits) for n in nodes],
-        "var": space(scope.var),
-        "node": space(scope.node),
-    }
+        out["emit"] = {
+            "nodes": [L.abstract_node(n, lits) for n in nodes],
+            "var": space(scope.var),
+            "node": space(scope.node),
+        }
+    except Exception as e:  # noqa: BLE001
+        out["unobservable"] = f"reading the result of _Inline.to_onnx: {type(e).__name__}: {e}"
     return out
 
 
@@ -288,6 +320,8 @@ def compare_stages(real: dict, model: dict, all_distinct: bool = True) -> Option
         if k in rp and rp[k] != mp[k]:
             return f"prepare.{k}: real {json.dumps(rp[k])[:300]} model {json.dumps(mp[k])[:300]}"
     rc, mc = real.get("call"), model.get("call")
+    if rc is None:  # facet not observable (registered separately)
+        return None
     if isinstance(rc, str) or isinstance(mc, str):
         return None if rc == mc else f"call: real {rc} model {mc}"
     if len(rc) != len(mc) or any(ms not in labels for labels, ms in zip(rc, mc)):
@@ -297,6 +331,8 @@ def compare_stages(real: dict, model: dict, all_distinct: bool = True) -> Option
     if real.get("resTypes") != mp["outTypes"]:
         return f"result types: real {real.get('resTypes')} model {mp['outTypes']}"
     re_, me = real.get("emit"), model.get("emit")
+    if re_ is None:
+        return None
     if isinstance(re_, str) or isinstance(me, str):
         return None if re_ == me else f"emit: real {re_ if isinstance(re_, str) else 'ok'} model {me if isinstance(me, str) else 'ok'}"
     if re_["nodes"] != me["nodes"]:
@@ -358,6 +394,9 @@ def classify_build_error(m: onnx.ModelProto, e: BaseException) -> str:
         return f"version-converter:{cls}:{'sparse' if 'Sparse tensors' in str(e) else 'other'}"
     if cls == "ScopeError":
         return "name-clash:ScopeError"
+    opset = next((o.version for o in m.opset_import if o.domain in ("", "ai.onnx")), 17)
+    if cls == "ValidationError" and opset < 14:
+        return "old-opset-not-converted:ValidationError"
     if any(o.name in ins for o in m.graph.output):
         return f"passthrough-output:{cls}"
     return f"build-raises:{cls}"
@@ -416,7 +455,7 @@ def oracle_compose(m: onnx.ModelProto, form: str, seed: int) -> list[tuple[str, 
                 d = direct(vals1, omit)
                 expected = {f"res_{k}": d[o] for k, o in enumerate(outs)}
                 declared = [L.strip_symbols(L.type_json(o.type)) for o in m.graph.output]
-                got = [L.type_json(r[o].type._to_onnx()) for o in outs]
+                got = [public_type_json(r[o].type) for o in outs]
                 if list(r.keys()) != outs:
                     fails.append(("result-names", f"returned keys {list(r.keys())}, model outputs {outs}"))
                 elif got != declared:
@@ -503,6 +542,55 @@ def oracle_compose(m: onnx.ModelProto, form: str, seed: int) -> list[tuple[str, 
     return fails
 
 
+def used_domains(g: onnx.GraphProto, acc: set) -> set:
+    for nd in g.node:
+        acc.add("" if nd.domain in ("", "ai.onnx") else nd.domain)
+        for a in nd.attribute:
+            if a.type == onnx.AttributeProto.GRAPH:
+                used_domains(a.g, acc)
+            elif a.type == onnx.AttributeProto.GRAPHS:
+                for sg in a.graphs:
+                    used_domains(sg, acc)
+    return acc
+
+
+def count_ops(g: onnx.GraphProto, acc: dict) -> dict:
+    for nd in g.node:
+        if nd.domain not in ("", "ai.onnx"):
+            acc[(nd.domain, nd.op_type)] = acc.get((nd.domain, nd.op_type), 0) + 1
+        for a in nd.attribute:
+            if a.type == onnx.AttributeProto.GRAPH:
+                count_ops(a.g, acc)
+            elif a.type == onnx.AttributeProto.GRAPHS:
+                for sg in a.graphs:
+                    count_ops(sg, acc)
+    return acc
+
+
+def oracle_build_only(m: onnx.ModelProto, seed: int) -> list[tuple[str, str]]:
+    """Models with custom-domain nodes (anywhere, also only inside bodies): the model built around
+    inline(m) must build, import every domain its nodes use and contain m's custom nodes. Model-free."""
+    from spox import argument, build, inline
+
+    fails = []
+    try:
+        with warnings.catch_warnings():
+            warnings.simplefilter("ignore")
+            A = [argument(spox_type(concrete(L.type_json(i.type)))) for i in m.graph.input]
+            r = inline(m)(*A)
+            outer = build({f"arg_{j}": a for j, a in enumerate(A)}, {f"res_{k}": r[o.name] for k, o in enumerate(m.graph.output)})
+    except Exception as e:  # noqa: BLE001
+        return [(classify_build_error(m, e), f"build-only: building around inline(m) raised {type(e).__name__}: {str(e)[:300]}")]
+    imported = {("" if o.domain in ("", "ai.onnx") else o.domain) for o in outer.opset_import}
+    missing = used_domains(outer.graph, set()) - imported
+    if missing:
+        fails.append(("missing-opset-import", f"build-only: nodes use domains {sorted(missing)} that the built model does not import"))
+    want, got = count_ops(m.graph, {}), count_ops(outer.graph, {})
+    if want != got:
+        fails.append(("custom-nodes-lost", f"build-only: custom nodes of m {want}, in the built model {got}"))
+    return fails
+
+
 def oracle_errors(m: onnx.ModelProto, seed: int) -> list[tuple[str, str]]:
     """Wrong calls must raise TypeError at the call; local functions => ValueError. Model-free."""
     from spox import argument, inline
@@ -542,6 +630,9 @@ def oracle_errors(m: onnx.ModelProto, seed: int) -> list[tuple[str, str]]:
     j = rng.randrange(len(ins))
     expect_type_error("duplicate-argument", full[: j + 1], {n: a for n, a in list(zip(names, full))[j:]})
     expect_type_error("unknown-keyword", [], {**dict(zip(names, full)), "no_such_input": arg(ins[0])})
+    for init_name in [i.name for i in m.graph.initializer if i.name not in names][:1]:
+        # an initializer that is not an input is a constant, not a parameter
+        expect_type_error("initializer-keyword", [], {**dict(zip(names, full)), init_name: arg(ins[0])})
     j = rng.randrange(len(ins))
     bad = list(full)
     bad[j] = arg(ins[j], wrong=True)
@@ -597,6 +688,9 @@ def fixed_corner_models() -> list[tuple[onnx.ModelProto, dict]]:
     out.append((mk([H.make_node("Add", ["Inline_0__x", "Inline_0__x_0"], ["Inline_0__Inline_0__x"]),
                     H.make_node("Neg", ["Inline_0__Inline_0__x"], ["Inline_0_outputs_0"], name="Inline_0__x")],
                    [f2("Inline_0__x", ("N",)), f2("Inline_0__x_0", ("N",))], [f2("Inline_0_outputs_0", ("N",))], opset=13), ["hostile-names"]))
+    rs = mk([H.make_node("ReduceSum", ["x"], ["y"], axes=[0], keepdims=1)], [f2("x")], [f2("y", (1,))], opset=12)
+    rs.ir_version = 7
+    out.append((rs, ["opset-12", "no-chain"]))
     sp = H.make_sparse_tensor(NH.from_array(np.array([3.0], np.float32), "s"), NH.from_array(np.array([1], np.int64), ""), [2])
     out.append((mk([H.make_node("Add", ["x", "s"], ["y"])], [f2("x")], [f2("y")], opset=14, sparse_initializer=[sp]),
                 ["sparse-initializer", "opset-14"]))
@@ -607,7 +701,7 @@ def make_models(ck: core.Check, n_hand: int, n_spox: int):
     rng = ck.rng
     models = list(fixed_corner_models())
     dropped = 0
-    while len(models) < 7 + n_hand:
+    while len(models) < 8 + n_hand:
         m, meta = L.HandGen(rng).model()
         if valid(m, meta["runnable"], rng):
             models.append((m, meta))
@@ -683,7 +777,11 @@ class IntLits(L.Lits):
 def run(ck: core.Check):
     from translator import inline_facts
 
-    facts = inline_facts.generate()
+    try:
+        facts = inline_facts.generate()
+    except Exception as e:  # noqa: BLE001
+        facts = {"error": f"{type(e).__name__}: {e}"}
+        ck.broken("generated", "C08 inline_facts not extractable", facts["error"])
     ck.cov["generated_facts"] = facts
     ck.lean(["SpoxModel.Props.C08"], audit="SpoxModel.Audit.C08")
     if ck.thorough:
@@ -712,7 +810,10 @@ def run(ck: core.Check):
             for mv in variants:
                 for _ in range(n_forms):
                     call, ctx = gen_call(rng, mv), gen_ctx(rng, mv)
-                    real = real_stages(mv, call, ctx, lits)
+                    try:
+                        real = real_stages(mv, call, ctx, lits)
+                    except Exception as e:  # noqa: BLE001
+                        real = {"prepare": {}, "unobservable": f"stages: {type(e).__name__}: {e}"}
                     reqs.append({"model": L.abstract_model(mv, lits), "call": call,
                                  "ctx": {k: v for k, v in ctx.items() if not k.startswith("_")}})
                     reals.append(real)
@@ -724,8 +825,17 @@ def run(ck: core.Check):
         answers = []
     mism = 0
     outcomes: dict[str, int] = {}
+    unobs: dict[str, int] = {}
     for (mi, call, ctx), real, ans in zip(descr, reals, answers):
-        d = compare_stages(real, ans)
+        if "unobservable" in real:
+            facet = real["unobservable"].split(":")[0]
+            unobs[facet] = unobs.get(facet, 0) + 1
+            if unobs[facet] == 1:
+                ck.broken("correspondence", f"C08 {facet} not observable", real["unobservable"])
+        try:
+            d = compare_stages(real, ans)
+        except Exception as e:  # noqa: BLE001
+            d = f"comparison failed: {type(e).__name__}: {e}"
         oc = real["prepare"] if isinstance(real.get("prepare"), str) else (
             real["call"] if isinstance(real.get("call"), str) else (
                 real["emit"] if isinstance(real.get("emit"), str) else "emitted"))
@@ -740,6 +850,7 @@ def run(ck: core.Check):
     ck.cov["correspondence_cases"] = len(reqs)
     ck.cov["correspondence_mismatches"] = mism
     ck.cov["correspondence_outcomes"] = outcomes
+    ck.cov["correspondence_unobservable"] = unobs
 
     # ---- evaluator correspondence: Inline.evalModel (integer interpreter) vs onnxruntime
     ev_reqs, ev_expect = [], []
@@ -782,10 +893,16 @@ def run(ck: core.Check):
         for key, what in oracle_errors(fresh(snaps[mi]), seed0):
             ck.failure(key, what, {"kind": "errors", "model": L.to_b64(m), "seed": seed0, "summary": L.summary(m)})
         if not meta["runnable"]:
-            ck.count(None)
+            seed1 = rng.randrange(1 << 30)
+            for key, what in oracle_build_only(fresh(snaps[mi]), seed1):
+                ck.failure(key, what, {"kind": "build-only", "model": L.to_b64(fresh(snaps[mi])), "seed": seed1,
+                                       "summary": L.summary(m), "features": meta["features"]})
+            ck.count(("build-only", mi))
             continue
         forms = list(FORMS) if (ck.thorough or meta["kind"] == "corner") else ["once"] + rng.sample(FORMS[1:], 2)
         for form in forms:
+            if form == "chained" and "no-chain" in meta["features"]:
+                continue
             seed1 = rng.randrange(1 << 30)
             fs = oracle_compose(fresh(snaps[mi]), form, seed1)
             form_hist[form] = form_hist.get(form, 0) + 1
@@ -830,6 +947,8 @@ def replay(ck: core.Check, doc) -> bool:
         warnings.simplefilter("ignore")
         if case["kind"] == "purity":
             fs = purity(m)
+        elif case["kind"] == "build-only":
+            fs = oracle_build_only(m, case["seed"])
         elif case["kind"] == "errors":
             fs = oracle_errors(m, case["seed"])
         else:
